@@ -3,7 +3,7 @@
    status codes and all reasons by interval case analysis, and the SCHEDULE clauses (at most one Close frame, no data
    frame after it - for every number of threads and every interleaving) for the concurrency skeleton that the
    translator regenerates from /repo on every run (Gen/Skel.v). *)
-From Gws Require Import Lib.Base Model.CloseCode Spec.CloseReply Proofs.CloseProofs Gen.Funcs Proofs.GenFuncsProofs.
+From Gws Require Import Lib.Base Model.CloseCode Spec.CloseReply Proofs.CloseProofs Gen.Funcs Proofs.GenCloseProofs.
 From Gws Require Import Skel.IR Skel.Checker Skel.Monitors Skel.GlobalClose Skel.Link Skel.Obligations.
 Local Open Scope N_scope.
 
